@@ -335,7 +335,7 @@ def _replay(py, name, cex, mode):
 def gen_schedules(rng, n):
     out = []
     for k in range(n):
-        N = int(rng.randint(3, 26))
+        N = int(rng.randint(1, 26)) if k % 3 else int(rng.randint(1, 4))
         kind = rng.choice(["uniform", "irregular", "gapped"])
         if kind == "uniform":
             d = np.full(N, 0.1)
